@@ -12,3 +12,74 @@ Ltac nopanic2 :=
     | match goal with |- (if ?c then _ else _) <> Panic => destruct c end
     | match goal with |- wb_guard ?c <> Panic => destruct c; cbn [wb_guard] end
     | match goal with |- (match ?x with _ => _ end) <> Panic => destruct x end ].
+
+(* ---------- operations behind a symbolic prefix: (h ++ t) with positions >= |h| ---------- *)
+
+Lemma wb_set_u8_app_r h t i v : blen h <= i ->
+  wb_set_u8 (h ++ t) i v = omap (fun x => h ++ x) (wb_set_u8 t (i - blen h) v).
+Proof.
+  intros Hi. unfold wb_set_u8. rewrite blen_app. pose proof (blen_nonneg h).
+  destruct (i - blen h <? blen t) eqn:E.
+  - bsplit. zbool. cbn [omap]. f_equal.
+    rewrite firstn_app, skipn_app.
+    rewrite firstn_all2 by (unfold blen in *; lia).
+    rewrite (skipn_all2 h) by (unfold blen in *; lia). cbn [app].
+    replace (Z.to_nat i - length h)%nat with (Z.to_nat (i - blen h)) by (unfold blen in *; lia).
+    replace (Z.to_nat (i + 1) - length h)%nat with (Z.to_nat (i - blen h + 1)) by (unfold blen in *; lia).
+    rewrite <- app_assoc. reflexivity.
+  - bsplit. zbool.
+    destruct (0 <=? i - blen h); reflexivity.
+Qed.
+
+Lemma wb_put_be_app_r h t lo hi enc : blen h <= lo ->
+  wb_put_be (h ++ t) lo hi enc = omap (fun x => h ++ x) (wb_put_be t (lo - blen h) (hi - blen h) enc).
+Proof.
+  intros Hlo. unfold wb_put_be. rewrite blen_app. pose proof (blen_nonneg h). pose proof (blen_nonneg enc).
+  destruct ((0 <=? lo - blen h) && (lo - blen h <=? hi - blen h) && (hi - blen h <=? blen t) &&
+            (blen enc <=? hi - blen h - (lo - blen h))) eqn:E.
+  - bsplit. zbool. cbn [omap]. f_equal.
+    rewrite firstn_app, skipn_app.
+    rewrite firstn_all2 by (unfold blen in *; lia).
+    rewrite (skipn_all2 h) by (unfold blen in *; lia). cbn [app].
+    replace (Z.to_nat lo - length h)%nat with (Z.to_nat (lo - blen h)) by (unfold blen in *; lia).
+    replace (Z.to_nat (lo + blen enc) - length h)%nat with (Z.to_nat (lo - blen h + blen enc))
+      by (unfold blen in *; lia).
+    rewrite <- app_assoc. reflexivity.
+  - destruct ((0 <=? lo) && (lo <=? hi) && (hi <=? blen h + blen t) && (blen enc <=? hi - lo)) eqn:E2;
+      [|reflexivity].
+    exfalso. bsplit.
+    assert ((0 <=? lo - blen h) && (lo - blen h <=? hi - blen h) && (hi - blen h <=? blen t) &&
+            (blen enc <=? hi - blen h - (lo - blen h)) = true) by (zbool; reflexivity).
+    congruence.
+Qed.
+
+Lemma wb_set_slice_app_r h t lo hi v : blen h <= lo ->
+  wb_set_slice (h ++ t) lo hi v = omap (fun x => h ++ x) (wb_set_slice t (lo - blen h) (hi - blen h) v).
+Proof.
+  intros Hlo. unfold wb_set_slice. rewrite blen_app. pose proof (blen_nonneg h).
+  destruct ((0 <=? lo - blen h) && (lo - blen h <=? hi - blen h) && (hi - blen h <=? blen t) &&
+            (blen v =? hi - blen h - (lo - blen h))) eqn:E.
+  - bsplit. zbool. cbn [omap]. f_equal.
+    rewrite firstn_app, skipn_app.
+    rewrite firstn_all2 by (unfold blen in *; lia).
+    rewrite (skipn_all2 h) by (unfold blen in *; lia). cbn [app].
+    replace (Z.to_nat lo - length h)%nat with (Z.to_nat (lo - blen h)) by (unfold blen in *; lia).
+    replace (Z.to_nat hi - length h)%nat with (Z.to_nat (hi - blen h)) by (unfold blen in *; lia).
+    rewrite <- app_assoc. reflexivity.
+  - destruct ((0 <=? lo) && (lo <=? hi) && (hi <=? blen h + blen t) && (blen v =? hi - lo)) eqn:E2;
+      [|reflexivity].
+    exfalso. bsplit.
+    assert ((0 <=? lo - blen h) && (lo - blen h <=? hi - blen h) && (hi - blen h <=? blen t) &&
+            (blen v =? hi - blen h - (lo - blen h)) = true) by (zbool; reflexivity).
+    congruence.
+Qed.
+
+(* a write that stays inside the prefix although the addressed sub-slice extends beyond it
+   (`write_u16(&mut buffer[2..], v)`) *)
+Lemma wb_put_be_prefix h t lo hi enc : 0 <= lo -> lo + blen enc <= blen h -> blen h <= hi ->
+  hi <= blen h + blen t ->
+  wb_put_be (h ++ t) lo hi enc = omap (fun x => x ++ t) (wb_put_be h lo (blen h) enc).
+Proof.
+  intros H0 H1 H2 H3. unfold wb_put_be. rewrite blen_app. pose proof (blen_nonneg enc). zbool. cbn [omap].
+  f_equal. rewrite firstn_app_l, skipn_app_l by (unfold blen in *; lia). rewrite <- !app_assoc. reflexivity.
+Qed.
